@@ -1,4 +1,12 @@
+/-
+  Receive-side data path of one channel under an adversarial network (C01/C02/C03):
+  SMap facts, the op/run model (`RecvOp`, `step`, `run`; `UOp`, `ustep`, `urun`), the specification of
+  `RecvRel.processMessage/processSlice` against a submission log (`Accept`, `SlicesOK`), the ordered and
+  unordered invariants (`OrdInv`, `UnordInv`), the unreliable-channel invariant (`UInv`), and the
+  correspondence between packets and op sequences.
+-/
 import RenetVerif.Lemmas.Reassembly
+import RenetVerif.Renet.Conn
 namespace RenetVerif.DataPath
 open RenetVerif C Reasm
 
@@ -717,5 +725,457 @@ theorem unord_slice_queued {L : List Bytes} {r : RecvRel} {sl : Slice} {m : Byte
     ho hlt hnr (by dsimp only; rw [hcn]; exact hmem2)
   rw [hpm]
   exact ⟨_, rfl, hfind⟩
+
+
+/-! ### the receiving side of one unreliable channel -/
+
+/-- what can happen to an unreliable receiving channel: a small message or a slice arrives (at time
+    `now`), the application asks for a message, or `update` discards stale reassemblies -/
+inductive UOp where
+  | msg (m : Bytes)
+  | slice (sl : Slice) (now : Nat)
+  | recv
+  | discard (now : Nat)
+  deriving Repr, DecidableEq
+
+/-- `S`: every message ever passed to `send_message` on the channel.  `idOf`: the message the sender
+    numbered with a given sliced-message id (it uses a fresh id for every sliced message, so all
+    slices carrying the same id belong to the same message). -/
+def GenuineU (S : List Bytes) (idOf : Nat → Option Bytes) : UOp → Prop
+  | .msg m => m ∈ S
+  | .slice sl _ => ∃ m, idOf sl.messageId = some m ∧ m ∈ S ∧ m.length > SLICE_SIZE ∧
+      sl.numSlices = divCeil m.length SLICE_SIZE ∧ sl.sliceIndex < sl.numSlices ∧
+      sl.payload = sliceBytes m sl.numSlices sl.sliceIndex
+  | .recv => True
+  | .discard _ => True
+
+/-- channel state, ghost list of everything obtained, ghost list of every (message id, slice index)
+    the network has handed over so far, disconnected flag -/
+structure URunSt where
+  r : RecvUnrel
+  obtained : List Bytes
+  seen : List (Nat × Nat)
+  dead : Bool
+  deriving Repr, DecidableEq
+
+def ustep (st : URunSt) (op : UOp) : URunSt :=
+  if st.dead then st else
+  match op with
+  | .msg m => { st with r := st.r.processMessage m }
+  | .slice sl now =>
+    match st.r.processSlice sl now with
+    | .ok r' => { st with r := r', seen := st.seen ++ [(sl.messageId, sl.sliceIndex)] }
+    | .err _ => { st with dead := true }
+    | .panic _ => { st with dead := true }
+  | .recv =>
+    match st.r.receive with
+    | .ok (r', some m) => { st with r := r', obtained := st.obtained ++ [m] }
+    | .ok (r', none) => { st with r := r' }
+    | .err _ => { st with dead := true }
+    | .panic _ => { st with dead := true }
+  | .discard now =>
+    match st.r.discardOld now with
+    | .ok r' => { st with r := r' }
+    | .err _ => { st with dead := true }
+    | .panic _ => { st with dead := true }
+
+def urun (r0 : RecvUnrel) (ops : List UOp) : URunSt := ops.foldl ustep ⟨r0, [], [], false⟩
+
+structure UInv (S : List Bytes) (idOf : Nat → Option Bytes) (st : URunSt) : Prop where
+  msgs : ∀ x ∈ st.r.messages, x ∈ S
+  wfS : WF st.r.slices
+  slices : ∀ id c, SMap.find? st.r.slices id = some c →
+    ∃ m, idOf id = some m ∧ m ∈ S ∧ m.length > SLICE_SIZE ∧ CtorAgrees m c
+  marks : ∀ id c, SMap.find? st.r.slices id = some c → ∀ j, c.received[j]? = some true → (id, j) ∈ st.seen
+  obt : ∀ x ∈ st.obtained, x ∈ S
+
+def uHead (r : RecvUnrel) (sl : Slice) : Option RecvUnrel :=
+  if SMap.contains r.slices sl.messageId then some r else
+    let len := sl.numSlices * SLICE_SIZE
+    if r.mem + len > r.maxMem then none
+    else some { r with mem := r.mem + len, slices := SMap.insert r.slices sl.messageId (SliceCtor.new sl.numSlices) }
+
+def uTail (r : RecvUnrel) (sl : Slice) (now : Nat) : Res (ChanErr × RecvUnrel) RecvUnrel :=
+  match SMap.find? r.slices sl.messageId with
+  | none => .panic "unreachable: constructor just inserted"
+  | some c =>
+    if c.numSlices ≠ sl.numSlices then .err (.invalidSlice, r) else
+    match c.processSlice sl.sliceIndex sl.payload with
+    | .panic s => .panic s
+    | .err e => .err (e, r)
+    | .ok (_, some m) => do
+      let mem ← Res.csub r.mem (c.numSlices * SLICE_SIZE) "unreliable.rs memory_usage_bytes -= num_slices * SLICE_SIZE"
+      pure { r with slices := SMap.erase r.slices sl.messageId, lastReceived := SMap.erase r.lastReceived sl.messageId,
+                    mem := mem + m.length, messages := r.messages ++ [m] }
+    | .ok (c', none) =>
+      pure { r with slices := SMap.insert r.slices sl.messageId c', lastReceived := SMap.insert r.lastReceived sl.messageId now }
+
+theorem uprocessSlice_eq (r : RecvUnrel) (sl : Slice) (now : Nat) :
+    r.processSlice sl now = match uHead r sl with
+      | none => .ok r
+      | some r1 => uTail r1 sl now := rfl
+
+/-- state-level part of `UInv` (everything but `obtained`) -/
+structure UInvR (S : List Bytes) (idOf : Nat → Option Bytes) (seen : List (Nat × Nat)) (r : RecvUnrel) : Prop where
+  msgs : ∀ x ∈ r.messages, x ∈ S
+  wfS : WF r.slices
+  slices : ∀ id c, SMap.find? r.slices id = some c →
+    ∃ m, idOf id = some m ∧ m ∈ S ∧ m.length > SLICE_SIZE ∧ CtorAgrees m c
+  marks : ∀ id c, SMap.find? r.slices id = some c → ∀ j, c.received[j]? = some true → (id, j) ∈ seen
+
+theorem uHead_ok {S : List Bytes} {idOf : Nat → Option Bytes} {seen : List (Nat × Nat)} {r r1 : RecvUnrel}
+    {sl : Slice} {m : Bytes} (hinv : UInvR S idOf seen r)
+    (hid : idOf sl.messageId = some m) (hS : m ∈ S) (hlen : m.length > SLICE_SIZE)
+    (hn : sl.numSlices = divCeil m.length SLICE_SIZE) (h : uHead r sl = some r1) :
+    UInvR S idOf seen r1 ∧ r1.messages = r.messages := by
+  unfold uHead at h
+  split at h
+  · cases h; exact ⟨hinv, rfl⟩
+  · dsimp only at h
+    split at h
+    · cases h
+    · cases h
+      refine ⟨⟨hinv.msgs, wf_insert hinv.wfS _ _, ?_, ?_⟩, rfl⟩
+      · intro id c hf
+        dsimp only at hf
+        rw [find?_insert] at hf
+        split at hf
+        · cases hf; subst_vars
+          exact ⟨m, hid, hS, hlen, by rw [hn]; exact agrees_new m⟩
+        · exact hinv.slices id c hf
+      · intro id c hf j hj
+        dsimp only at hf
+        rw [find?_insert] at hf
+        split at hf
+        · cases hf
+          simp [SliceCtor.new, List.getElem?_replicate] at hj
+        · exact hinv.marks id c hf j hj
+
+/-- A genuine slice offered to an unreliable channel: the invariant is kept, and a message is pushed to
+    the queue only if it is the complete submitted message and every one of its slice indices has
+    been handed over by the network (this one included). -/
+theorem uTail_ok {S : List Bytes} {idOf : Nat → Option Bytes} {seen : List (Nat × Nat)} {r r' : RecvUnrel}
+    {sl : Slice} {now : Nat} {m : Bytes} (hinv : UInvR S idOf seen r)
+    (hid : idOf sl.messageId = some m) (hS : m ∈ S) (hlen : m.length > SLICE_SIZE)
+    (hn : sl.numSlices = divCeil m.length SLICE_SIZE) (hi : sl.sliceIndex < sl.numSlices)
+    (hp : sl.payload = sliceBytes m sl.numSlices sl.sliceIndex)
+    (h : uTail r sl now = .ok r') :
+    UInvR S idOf (seen ++ [(sl.messageId, sl.sliceIndex)]) r' ∧
+    (r'.messages = r.messages ∨
+      (r'.messages = r.messages ++ [m] ∧
+        ∀ j, j < sl.numSlices → (sl.messageId, j) ∈ seen ++ [(sl.messageId, sl.sliceIndex)])) := by
+  unfold uTail at h
+  split at h
+  · cases h
+  · rename_i c hfind
+    obtain ⟨m', hid', _, _, hag⟩ := hinv.slices _ _ hfind
+    rw [hid] at hid'; cases hid'
+    have hcn : c.numSlices = sl.numSlices := by rw [hn]; exact hag.numSlices
+    rw [if_neg (by simp [hcn])] at h
+    obtain ⟨c', out, hproc, hrecv, _, hnone, hsome, hiff⟩ :=
+      processSlice_genuine (m := m) (by omega) hag (idx := sl.sliceIndex) (by rw [← hn]; exact hi)
+    rw [hp, hn, hproc] at h
+    have hmark : ∀ j, c'.received[j]? = some true → (sl.messageId, j) ∈ seen ++ [(sl.messageId, sl.sliceIndex)] := by
+      intro j hj
+      rw [hrecv, List.getElem?_set] at hj
+      split at hj
+      · subst_vars; simp
+      · exact List.mem_append_left _ (hinv.marks _ _ hfind j hj)
+    cases out with
+    | none =>
+      dsimp only at h
+      cases h
+      refine ⟨⟨hinv.msgs, wf_insert hinv.wfS _ _, ?_, ?_⟩, Or.inl rfl⟩
+      · intro id c0 hf
+        dsimp only at hf
+        rw [find?_insert] at hf
+        split at hf
+        · cases hf; subst_vars; exact ⟨m, hid, hS, hlen, (hnone rfl).1⟩
+        · exact hinv.slices id c0 hf
+      · intro id c0 hf j hj
+        dsimp only at hf
+        rw [find?_insert] at hf
+        split at hf
+        · cases hf; subst_vars; exact hmark j hj
+        · exact List.mem_append_left _ (hinv.marks id c0 hf j hj)
+    | some mm =>
+      have := hsome mm rfl; subst this
+      dsimp only at h
+      cases hsub : (Res.csub r.mem (c.numSlices * SLICE_SIZE) "unreliable.rs memory_usage_bytes -= num_slices * SLICE_SIZE" : Res (ChanErr × RecvUnrel) Nat) with
+      | panic s => rw [hsub] at h; cases h
+      | err e => rw [hsub] at h; cases h
+      | ok mem =>
+        rw [hsub] at h
+        simp only [Res.bind_ok, Res.pure_eq] at h
+        cases h
+        refine ⟨⟨?_, wf_erase hinv.wfS _, ?_, ?_⟩, Or.inr ⟨rfl, ?_⟩⟩
+        · intro x hx
+          dsimp only at hx
+          rw [List.mem_append] at hx
+          rcases hx with hx | hx
+          · exact hinv.msgs x hx
+          · simp only [List.mem_singleton] at hx; subst hx; exact hS
+        · intro id c0 hf
+          dsimp only at hf
+          rw [find?_erase hinv.wfS] at hf
+          split at hf
+          · cases hf
+          · exact hinv.slices id c0 hf
+        · intro id c0 hf j hj
+          dsimp only at hf
+          rw [find?_erase hinv.wfS] at hf
+          split at hf
+          · cases hf
+          · exact List.mem_append_left _ (hinv.marks id c0 hf j hj)
+        · intro j hj
+          have hall := hiff.1 (by simp)
+          exact hmark j (hall j (by rw [← hn]; exact hj))
+
+theorem uInvR_seen_mono {S : List Bytes} {idOf : Nat → Option Bytes} {seen : List (Nat × Nat)} {r : RecvUnrel}
+    (hinv : UInvR S idOf seen r) (p : Nat × Nat) : UInvR S idOf (seen ++ [p]) r :=
+  ⟨hinv.msgs, hinv.wfS, hinv.slices, fun id c hf j hj => List.mem_append_left _ (hinv.marks id c hf j hj)⟩
+
+theorem uprocessSlice_ok {S : List Bytes} {idOf : Nat → Option Bytes} {seen : List (Nat × Nat)} {r r' : RecvUnrel}
+    {sl : Slice} {now : Nat} (hinv : UInvR S idOf seen r) (g : GenuineU S idOf (.slice sl now))
+    (h : r.processSlice sl now = .ok r') :
+    UInvR S idOf (seen ++ [(sl.messageId, sl.sliceIndex)]) r' ∧
+    (r'.messages = r.messages ∨
+      ∃ m, idOf sl.messageId = some m ∧ m ∈ S ∧ r'.messages = r.messages ++ [m] ∧
+        ∀ j, j < sl.numSlices → (sl.messageId, j) ∈ seen ++ [(sl.messageId, sl.sliceIndex)]) := by
+  obtain ⟨m, hid, hS, hlen, hn, hi, hp⟩ := g
+  rw [uprocessSlice_eq] at h
+  cases hh : uHead r sl with
+  | none =>
+    rw [hh] at h; dsimp only at h; cases h
+    exact ⟨uInvR_seen_mono hinv _, Or.inl rfl⟩
+  | some r1 =>
+    rw [hh] at h; dsimp only at h
+    obtain ⟨hinv1, hm1⟩ := uHead_ok hinv hid hS hlen hn hh
+    obtain ⟨hinv', hcase⟩ := uTail_ok hinv1 hid hS hlen hn hi hp h
+    refine ⟨hinv', ?_⟩
+    rcases hcase with hc | ⟨hc, hall⟩
+    · left; rw [hc, hm1]
+    · right; exact ⟨m, hid, hS, by rw [hc, hm1], hall⟩
+
+theorem discardLoop_ok {S : List Bytes} {idOf : Nat → Option Bytes} {seen : List (Nat × Nat)} :
+    ∀ (l : List Nat) (r r' : RecvUnrel), UInvR S idOf seen r → discardLoop l r = .ok r' →
+      UInvR S idOf seen r' ∧ r'.messages = r.messages
+  | [], r, r', hinv, h => by
+    simp only [discardLoop] at h; cases h; exact ⟨hinv, rfl⟩
+  | id :: rest, r, r', hinv, h => by
+    simp only [discardLoop] at h
+    split at h
+    · cases h
+    · rename_i c hfind
+      cases hsub : (Res.csub r.mem (c.numSlices * SLICE_SIZE) "unreliable.rs memory_usage_bytes -= num_slices * SLICE_SIZE (discard)" : Res Empty Nat) with
+      | panic s => rw [hsub] at h; cases h
+      | err e => rw [hsub] at h; cases h
+      | ok mem =>
+        rw [hsub] at h
+        simp only [Res.bind_ok] at h
+        have hinv1 : UInvR S idOf seen { r with lastReceived := SMap.erase r.lastReceived id, slices := SMap.erase r.slices id, mem := mem } := by
+          refine ⟨hinv.msgs, wf_erase hinv.wfS _, ?_, ?_⟩
+          · intro id' c0 hf
+            dsimp only at hf
+            rw [find?_erase hinv.wfS] at hf
+            split at hf
+            · cases hf
+            · exact hinv.slices id' c0 hf
+          · intro id' c0 hf j hj
+            dsimp only at hf
+            rw [find?_erase hinv.wfS] at hf
+            split at hf
+            · cases hf
+            · exact hinv.marks id' c0 hf j hj
+        have := discardLoop_ok rest _ r' hinv1 h
+        exact this
+
+theorem uinv_of {S : List Bytes} {idOf : Nat → Option Bytes} {st : URunSt} (h : UInv S idOf st) :
+    UInvR S idOf st.seen st.r := ⟨h.msgs, h.wfS, h.slices, h.marks⟩
+
+theorem uinv_mk {S : List Bytes} {idOf : Nat → Option Bytes} {st : URunSt} (h : UInvR S idOf st.seen st.r)
+    (ho : ∀ x ∈ st.obtained, x ∈ S) : UInv S idOf st := ⟨h.msgs, h.wfS, h.slices, h.marks, ho⟩
+
+theorem uinv_init (S : List Bytes) (idOf : Nat → Option Bytes) (ch maxMem : Nat) :
+    UInv S idOf ⟨RecvUnrel.new ch maxMem, [], [], false⟩ :=
+  ⟨(by intro x h; cases h), wf_nil, (by intro id c h; simp [RecvUnrel.new, SMap.find?] at h),
+   (by intro id c h; simp [RecvUnrel.new, SMap.find?] at h), (by intro x h; cases h)⟩
+
+theorem ustep_inv (S : List Bytes) (idOf : Nat → Option Bytes) (st : URunSt) (op : UOp)
+    (hinv : UInv S idOf st) (g : GenuineU S idOf op) : UInv S idOf (ustep st op) := by
+  unfold ustep
+  split
+  · exact hinv
+  · cases op with
+    | msg m =>
+      dsimp only
+      unfold RecvUnrel.processMessage
+      split
+      · exact hinv
+      · refine ⟨?_, hinv.wfS, hinv.slices, hinv.marks, hinv.obt⟩
+        intro x hx
+        dsimp only at hx
+        rw [List.mem_append] at hx
+        rcases hx with hx | hx
+        · exact hinv.msgs x hx
+        · simp only [List.mem_singleton] at hx; subst hx; exact g
+    | slice sl now =>
+      dsimp only
+      split
+      · rename_i r' h
+        exact uinv_mk (uprocessSlice_ok (uinv_of hinv) g h).1 hinv.obt
+      · exact ⟨hinv.msgs, hinv.wfS, hinv.slices, hinv.marks, hinv.obt⟩
+      · exact ⟨hinv.msgs, hinv.wfS, hinv.slices, hinv.marks, hinv.obt⟩
+    | recv =>
+      dsimp only
+      split
+      · rename_i r' m h
+        unfold RecvUnrel.receive at h
+        split at h
+        · cases h
+        · rename_i x rest hm
+          cases hsub : (Res.csub st.r.mem x.length "unreliable.rs memory_usage_bytes -= message.len() (receive)" : Res Empty Nat) with
+          | panic s => rw [hsub] at h; cases h
+          | err e => rw [hsub] at h; cases h
+          | ok mem =>
+            rw [hsub] at h
+            simp only [Res.bind_ok, Res.pure_eq] at h
+            cases h
+            have hmsgs := hinv.msgs
+            rw [hm] at hmsgs
+            refine ⟨fun y hy => hmsgs y (List.mem_cons_of_mem _ hy), hinv.wfS, hinv.slices, hinv.marks, ?_⟩
+            intro y hy
+            dsimp only at hy
+            rw [List.mem_append] at hy
+            rcases hy with hy | hy
+            · exact hinv.obt y hy
+            · simp only [List.mem_singleton] at hy; subst hy; exact hmsgs _ (by simp)
+      · rename_i r' h
+        unfold RecvUnrel.receive at h
+        split at h
+        · cases h; exact hinv
+        · rename_i x rest hm
+          cases hsub : (Res.csub st.r.mem x.length "unreliable.rs memory_usage_bytes -= message.len() (receive)" : Res Empty Nat) with
+          | panic s => rw [hsub] at h; cases h
+          | err e => rw [hsub] at h; cases h
+          | ok mem =>
+            rw [hsub] at h
+            simp only [Res.bind_ok, Res.pure_eq] at h
+            cases h
+      · exact ⟨hinv.msgs, hinv.wfS, hinv.slices, hinv.marks, hinv.obt⟩
+      · exact ⟨hinv.msgs, hinv.wfS, hinv.slices, hinv.marks, hinv.obt⟩
+    | discard now =>
+      dsimp only
+      split
+      · rename_i r' h
+        unfold RecvUnrel.discardOld at h
+        obtain ⟨hr, _⟩ := discardLoop_ok _ _ _ (uinv_of hinv) h
+        exact uinv_mk hr hinv.obt
+      · exact ⟨hinv.msgs, hinv.wfS, hinv.slices, hinv.marks, hinv.obt⟩
+      · exact ⟨hinv.msgs, hinv.wfS, hinv.slices, hinv.marks, hinv.obt⟩
+
+theorem uinv_run (S : List Bytes) (idOf : Nat → Option Bytes) (ch maxMem : Nat) (ops : List UOp)
+    (hg : ∀ op ∈ ops, GenuineU S idOf op) : UInv S idOf (urun (RecvUnrel.new ch maxMem) ops) :=
+  foldl_inv ustep (UInv S idOf) (GenuineU S idOf) (ustep_inv S idOf) ops _ (uinv_init S idOf ch maxMem) hg
+
+/-- every ghost mark comes from a slice op of the schedule -/
+theorem seen_from_ops : ∀ (ops : List UOp) (st : URunSt) (p : Nat × Nat), p ∈ (ops.foldl ustep st).seen →
+    p ∈ st.seen ∨ ∃ sl now, UOp.slice sl now ∈ ops ∧ (sl.messageId, sl.sliceIndex) = p
+  | [], st, p, h => Or.inl h
+  | op :: ops, st, p, h => by
+    rw [List.foldl_cons] at h
+    rcases seen_from_ops ops (ustep st op) p h with h1 | ⟨sl, now, hm, he⟩
+    · unfold ustep at h1
+      split at h1
+      · exact Or.inl h1
+      · cases op with
+        | msg m => exact Or.inl h1
+        | slice sl now =>
+          dsimp only at h1
+          split at h1
+          · dsimp only at h1
+            rw [List.mem_append] at h1
+            rcases h1 with h1 | h1
+            · exact Or.inl h1
+            · simp only [List.mem_singleton] at h1
+              exact Or.inr ⟨sl, now, by simp, h1.symm⟩
+          · exact Or.inl h1
+          · exact Or.inl h1
+        | recv =>
+          dsimp only at h1
+          split at h1 <;> exact Or.inl h1
+        | discard now =>
+          dsimp only at h1
+          split at h1 <;> exact Or.inl h1
+    · exact Or.inr ⟨sl, now, List.mem_cons_of_mem _ hm, he⟩
+
+
+/-! ### packets as op sequences (`Conn.processPacket` dispatch) -/
+
+theorem foldl_step_dead (ops : List RecvOp) (st : RunSt) (h : st.dead = true) : ops.foldl step st = st := by
+  induction ops with
+  | nil => rfl
+  | cons op ops ih =>
+    rw [List.foldl_cons]
+    have : step st op = st := by unfold step; rw [if_pos h]
+    rw [this, ih]
+
+theorem processMessage_err {r r' : RecvRel} {m : Bytes} {id : Nat} {e : ChanErr}
+    (h : r.processMessage m id = .err (e, r')) : r' = r := by
+  unfold RecvRel.processMessage at h
+  repeat' split at h
+  all_goals first | cases h; rfl | cases h
+
+theorem processMessage_no_panic (r : RecvRel) (m : Bytes) (id : Nat) (s : String) :
+    r.processMessage m id ≠ .panic s := by
+  unfold RecvRel.processMessage
+  repeat' split
+  all_goals intro h; cases h
+
+/-- A `SmallReliable` packet carrying `msgs` acts on the channel exactly like the op sequence
+    `msg id₁ m₁, msg id₂ m₂, …`: same final channel on success; on a channel error the run is dead and
+    holds the state the error carries (which `Conn.processPacket` stores before disconnecting). -/
+theorem relMsgLoop_as_ops : ∀ (msgs : List (Nat × Bytes)) (r : RecvRel) (o : List Bytes),
+    (∀ r', Conn.relMsgLoop r msgs = .ok r' →
+      (msgs.map (fun p => RecvOp.msg p.1 p.2)).foldl step ⟨r, o, false⟩ = ⟨r', o, false⟩) ∧
+    (∀ e r', Conn.relMsgLoop r msgs = .err (e, r') →
+      (msgs.map (fun p => RecvOp.msg p.1 p.2)).foldl step ⟨r, o, false⟩ = ⟨r', o, true⟩) ∧
+    (∀ s, Conn.relMsgLoop r msgs ≠ .panic s)
+  | [], r, o => by
+    refine ⟨?_, ?_, ?_⟩
+    · intro r' h; simp only [Conn.relMsgLoop] at h; cases h; rfl
+    · intro e r' h; simp only [Conn.relMsgLoop] at h; cases h
+    · intro s h; simp only [Conn.relMsgLoop] at h; cases h
+  | (id, m) :: rest, r, o => by
+    simp only [Conn.relMsgLoop, List.map_cons, List.foldl_cons]
+    have hstep : step ⟨r, o, false⟩ (.msg id m) = match r.processMessage m id with
+        | .ok r' => ⟨r', o, false⟩
+        | .err _ => ⟨r, o, true⟩
+        | .panic _ => ⟨r, o, true⟩ := by
+      unfold step; rw [if_neg (by simp)]
+    rw [hstep]
+    cases hpm : r.processMessage m id with
+    | ok r1 =>
+      dsimp only
+      exact relMsgLoop_as_ops rest r1 o
+    | err e =>
+      obtain ⟨e1, r1⟩ := e
+      have := processMessage_err hpm; subst this
+      dsimp only
+      refine ⟨?_, ?_, ?_⟩
+      · intro r' h; cases h
+      · intro e' r' h; cases h; exact foldl_step_dead _ _ rfl
+      · intro s h; cases h
+    | panic s => exact absurd hpm (processMessage_no_panic _ _ _ _)
+
+theorem foldl_ustep_msgs : ∀ (msgs : List Bytes) (r : RecvUnrel) (o : List Bytes) (seen : List (Nat × Nat)),
+    (msgs.map UOp.msg).foldl ustep ⟨r, o, seen, false⟩ = ⟨msgs.foldl RecvUnrel.processMessage r, o, seen, false⟩
+  | [], _, _, _ => rfl
+  | m :: rest, r, o, seen => by
+    simp only [List.map_cons, List.foldl_cons]
+    have : ustep ⟨r, o, seen, false⟩ (.msg m) = ⟨r.processMessage m, o, seen, false⟩ := by
+      unfold ustep; rw [if_neg (by simp)]
+    rw [this]
+    exact foldl_ustep_msgs rest _ o seen
 
 end RenetVerif.DataPath
